@@ -17,6 +17,23 @@
 (*    <<"F", <<dtype, index, columns, cells>>>>       pd.DataFrame, cells row-major            *)
 (* index / columns are sequences of leaves; cells of numeric arrays are plain leaves, cells of  *)
 (* object arrays any value.  Every container is [kind, frame, items]: Kind, Frame, Items.       *)
+(*    <<"nat", 0>>                  pd.NaT, the missing Timestamp (one object; NaT != NaT)     *)
+(*                                                                                             *)
+(* REALISATIONS.  The descriptors above name VALUES - what the statement speaks about.  One    *)
+(* value can be realised as a Python object in several concrete ways that the statement does   *)
+(* not distinguish; the concrete descriptors below name the realisation, Norm(c) the value:    *)
+(*    <<"mo", <<perm, kvs>>>>         a dict whose keys were INSERTED in the order              *)
+(*                                    kvs[perm[1]], kvs[perm[2]], ..   (kvs in key order;       *)
+(*                                    <<"m", kvs>> is the dict inserted in key order)           *)
+(*    <<"Mo", <<cls, perm, kvs>>>>    the same for an instance of the dict subclass cls         *)
+(*    <<"v", <<dtype, buf, bufcells, offset, shape, strides>>>>                                 *)
+(*                                    an ndarray that does not own its cells: a view into       *)
+(*                                    buffer number buf (flat cells bufcells) starting at       *)
+(*                                    element offset with element strides - a[1:], a[:-1],      *)
+(*                                    m[:, 0], m.T, a[::-1], overlapping windows ...; two views *)
+(*                                    with one buf number share memory                          *)
+(*    <<"Sv", <<index, view>>>>  <<"Fv", <<index, columns, view>>>>                             *)
+(*                                    a Series / DataFrame built on a view without copying      *)
 EXTENDS Values
 
 NpS(dt, leaf)  == <<"np", <<dt, leaf>>>>
@@ -29,8 +46,14 @@ VSub(cls, kvs) == <<"M", <<cls, kvs>>>>
 VArr(dt, shape, cells)       == <<"a", <<dt, shape, cells>>>>
 VSer(dt, index, cells)       == <<"S", <<dt, index, cells>>>>
 VFrm(dt, index, cols, cells) == <<"F", <<dt, index, cols, cells>>>>
+VNaT           == <<"nat", 0>>
+VDictO(perm, kvs)     == <<"mo", <<perm, kvs>>>>
+VSubO(cls, perm, kvs) == <<"Mo", <<cls, perm, kvs>>>>
+VView(dt, buf, bc, off, shape, strides) == <<"v", <<dt, buf, bc, off, shape, strides>>>>
+VSerV(index, view)       == <<"Sv", <<index, view>>>>
+VFrmV(index, cols, view) == <<"Fv", <<index, cols, view>>>>
 
-LeafTags == {"n", "b", "i", "f", "nan", "inf", "s", "d", "ts", "d64", "date", "np"}
+LeafTags == {"n", "b", "i", "f", "nan", "inf", "s", "d", "ts", "d64", "date", "np", "nat"}
 IsLeaf(v) == Tag(v) \in LeafTags
 \* the container type; a scalar of any sort is "scalar"
 Kind(v) == IF IsLeaf(v) THEN "scalar" ELSE IF Tag(v) = "M" THEN "M:" \o Pay(v)[1] ELSE Tag(v)
@@ -51,11 +74,18 @@ Keys(v)  == [i \in 1..Len(Kvs(v)) |-> Kvs(v)[i][1]]
 \* the unit of the datetime64 and is not transitive: datetime != datetime64[D] == Timestamp ==
 \* datetime).  With tri = FALSE the datetime64 instants are kept apart from the others, with
 \* tri = TRUE they are identified; wherever the two readings differ nothing is pinned (Pin).
+\* Named deviation NaTIsMissing: pd.NaT is one object, equal to itself (eq is reflexive) and to
+\* nothing else - except that the statement does not say whether NaT counts as a NaN ("NaN equals
+\* NaN"): strict reading (tri = FALSE) NaT # NaN, loose reading NaT = NaN, nothing pinned between.
+\* NaT against None, numbers, strings, instants is a difference in a cell like any other.
 \* ---------------------------------------------------------------------------------------------
 IsInstant(a) == Tag(a) \in {"d", "ts", "d64"}
+IsNaT(a)     == Tag(a) = "nat"
 LeafEqG(u, v, tri) ==
     LET a == Core(u)  b == Core(v) IN
     IF IsNaN(a) /\ IsNaN(b) THEN TRUE
+    ELSE IF IsNaT(a) \/ IsNaT(b)
+         THEN (IsNaT(a) /\ IsNaT(b)) \/ (tri /\ (IsNaN(a) \/ IsNaN(b)))
     ELSE IF IsInstant(a) /\ IsInstant(b)
          THEN Pay(a) = Pay(b) /\ (tri \/ (Tag(a) = "d64") = (Tag(b) = "d64"))
     ELSE PyEq(a, b)
@@ -147,7 +177,8 @@ Fresh(v) ==
 RECURSIVE Plain(_)
 Plain(v) == IsLeaf(v) \/ (Tag(v) \in {"t", "l", "m"} /\ \A i \in 1..Len(Items(v)) : Plain(Items(v)[i]))
 RECURSIVE NaNFree(_)
-NaNFree(v) == IF IsLeaf(v) THEN ~IsNaN(Core(v)) ELSE \A i \in 1..Len(Items(v)) : NaNFree(Items(v)[i])
+\* (pd.NaT is the NaN of timestamps - NaT != NaT in Python - and is not "NaN-free")
+NaNFree(v) == IF IsLeaf(v) THEN ~IsNaN(Core(v)) /\ ~IsNaT(v) ELSE \A i \in 1..Len(Items(v)) : NaNFree(Items(v)[i])
 
 \* Python's == on plain values (written from Python's rules, not from EqSpec): numbers by value,
 \* sequences of one type elementwise, dicts by key set and values; NaN is equal to nothing
@@ -155,7 +186,8 @@ RECURSIVE PyEqX(_, _)
 PyEqX(u, v) ==
     IF IsLeaf(u) /\ IsLeaf(v)
     THEN LET a == Core(u)  b == Core(v) IN
-         IF Tag(a) \in {"d", "ts"} /\ Tag(b) \in {"d", "ts"} THEN Pay(a) = Pay(b) ELSE PyEq(a, b)
+         IF IsNaT(a) \/ IsNaT(b) THEN FALSE
+         ELSE IF Tag(a) \in {"d", "ts"} /\ Tag(b) \in {"d", "ts"} THEN Pay(a) = Pay(b) ELSE PyEq(a, b)
     ELSE IF Tag(u) \in {"t", "l"} /\ Tag(v) = Tag(u)
          THEN Len(Pay(u)) = Len(Pay(v)) /\ \A i \in 1..Len(Pay(u)) : PyEqX(Pay(u)[i], Pay(v)[i])
     ELSE IF Tag(u) = "m" /\ Tag(v) = "m"
@@ -172,7 +204,8 @@ PyEqX(u, v) ==
 \*         them) with matching shape, index, columns and cells that are not copies of each other -
 \*         int64 against float64 cells, RangeIndex against a float index ... - the statement gives
 \*         only the "only if" direction; the equivalence axioms still bind these entries;
-\*   free  named deviation Datetime64Triangle (see LeafEqG).
+\*   free  named deviations Datetime64Triangle and NaTIsMissing (see LeafEqG).
+\* Pin speaks of VALUES; for realisations (insertion order, shared memory) see PinC below.
 Pin(u, v) ==
     LET e == EqSpec(u, v) IN
     IF EqG(u, v, TRUE) # e THEN "free"
@@ -184,6 +217,116 @@ Pin(u, v) ==
 \* the clause of the statement that an answer True / False to eq(u, v) contradicts ("" = admitted)
 ClauseIfT(u, v) == IF Pin(u, v) = "F" THEN "equal_despite_" \o Why(u, v) ELSE ""
 ClauseIfF(u, v) == IF Pin(u, v) = "T" THEN (IF StructCopy(u, v) THEN "copy_unequal" ELSE "plain_equal_values_unequal") ELSE ""
+
+\* ---------------------------------------------------------------------------------------------
+\* Realisations: concrete descriptors and the value they denote
+\* ---------------------------------------------------------------------------------------------
+\* The statement speaks of values: a dict is its key -> value mapping ("on NaN-free plain values it
+\* agrees with ==", and == on dicts does not look at the insertion order; a re-ordered dict is a
+\* structural copy), an array is its dtype, shape and cells ("arrays are equal only if shape and
+\* all cells match" - whichever memory the cells live in, shared with the other operand or not), a
+\* pandas object its index, columns and cells.  So everything the statement fixes for two
+\* realisations is what it fixes for the values they denote: EqC / PinC below.
+RECURSIVE ProdSeq(_)
+ProdSeq(sh) == IF sh = <<>> THEN 1 ELSE sh[1] * ProdSeq(Tail(sh))
+\* the cell with row-major number p (from 0) of a view: its position in the buffer relative to the offset
+RECURSIVE PosOf(_, _, _, _)
+PosOf(p, sh, st, j) ==
+    IF j > Len(sh) THEN 0
+    ELSE (((p \div ProdSeq(SubSeq(sh, j + 1, Len(sh)))) % sh[j]) * st[j]) + PosOf(p, sh, st, j + 1)
+VDt_(w)  == Pay(w)[1]
+VBuf(w)  == Pay(w)[2]
+VBc(w)   == Pay(w)[3]
+VOff(w)  == Pay(w)[4]
+VShp(w)  == Pay(w)[5]
+VStr_(w) == Pay(w)[6]
+\* positions (from 0) in the buffer of the cells of view w, in row-major order
+ViewPos(w)   == [q \in 1..ProdSeq(VShp(w)) |-> VOff(w) + PosOf(q - 1, VShp(w), VStr_(w), 1)]
+ViewCells(w) == [q \in 1..ProdSeq(VShp(w)) |-> VBc(w)[ViewPos(w)[q] + 1]]
+ViewOK(w)    == /\ Len(VShp(w)) = Len(VStr_(w))
+                /\ \A j \in 1..Len(VShp(w)) : VShp(w)[j] >= 1
+                /\ \A q \in 1..ProdSeq(VShp(w)) : ViewPos(w)[q] \in 0..(Len(VBc(w)) - 1)
+IsPerm(p, n) == Len(p) = n /\ \A k \in 1..n : \E i \in 1..n : p[i] = k
+
+RECURSIVE Norm(_)
+NormSeq(s) == [i \in 1..Len(s) |-> Norm(s[i])]
+NormKvs(s) == [i \in 1..Len(s) |-> <<s[i][1], Norm(s[i][2])>>]
+Norm(c) ==
+    CASE Tag(c) \in {"t", "l"} -> <<Tag(c), NormSeq(Pay(c))>>
+      [] Tag(c) = "m"   -> VDict(NormKvs(Pay(c)))
+      [] Tag(c) = "mo"  -> VDict(NormKvs(Pay(c)[2]))
+      [] Tag(c) = "M"   -> VSub(Pay(c)[1], NormKvs(Pay(c)[2]))
+      [] Tag(c) = "Mo"  -> VSub(Pay(c)[1], NormKvs(Pay(c)[3]))
+      [] Tag(c) = "a"   -> IF Pay(c)[1] = "object" THEN VArr(Pay(c)[1], Pay(c)[2], NormSeq(Pay(c)[3])) ELSE c
+      [] Tag(c) = "S"   -> IF Pay(c)[1] = "object" THEN VSer(Pay(c)[1], Pay(c)[2], NormSeq(Pay(c)[3])) ELSE c
+      [] Tag(c) = "F"   -> IF Pay(c)[1] = "object" THEN VFrm(Pay(c)[1], Pay(c)[2], Pay(c)[3], NormSeq(Pay(c)[4])) ELSE c
+      [] Tag(c) = "v"   -> VArr(VDt_(c), VShp(c), NormSeq(ViewCells(c)))
+      [] Tag(c) = "Sv"  -> VSer(VDt_(Pay(c)[2]), Pay(c)[1], NormSeq(ViewCells(Pay(c)[2])))
+      [] Tag(c) = "Fv"  -> VFrm(VDt_(Pay(c)[3]), Pay(c)[1], Pay(c)[2], NormSeq(ViewCells(Pay(c)[3])))
+      [] OTHER -> c
+
+\* a concrete descriptor is well formed: permutations are permutations, views stay inside their buffer
+RECURSIVE ConcreteOK(_)
+OKSeq(s) == \A i \in 1..Len(s) : ConcreteOK(s[i])
+OKKvs(s) == \A i \in 1..Len(s) : ConcreteOK(s[i][2])
+ConcreteOK(c) ==
+    CASE Tag(c) \in {"t", "l"} -> OKSeq(Pay(c))
+      [] Tag(c) = "m"   -> OKKvs(Pay(c))
+      [] Tag(c) = "mo"  -> IsPerm(Pay(c)[1], Len(Pay(c)[2])) /\ OKKvs(Pay(c)[2])
+      [] Tag(c) = "M"   -> OKKvs(Pay(c)[2])
+      [] Tag(c) = "Mo"  -> IsPerm(Pay(c)[2], Len(Pay(c)[3])) /\ OKKvs(Pay(c)[3])
+      [] Tag(c) = "a"   -> Len(Pay(c)[3]) = ProdSeq(Pay(c)[2]) /\ OKSeq(Pay(c)[3])
+      [] Tag(c) = "S"   -> Len(Pay(c)[3]) = Len(Pay(c)[2]) /\ OKSeq(Pay(c)[3])
+      [] Tag(c) = "F"   -> Len(Pay(c)[4]) = Len(Pay(c)[2]) * Len(Pay(c)[3]) /\ OKSeq(Pay(c)[4])
+      [] Tag(c) = "v"   -> ViewOK(c) /\ OKSeq(VBc(c))
+      [] Tag(c) = "Sv"  -> Tag(Pay(c)[2]) = "v" /\ ViewOK(Pay(c)[2]) /\ VShp(Pay(c)[2]) = <<Len(Pay(c)[1])>>
+      [] Tag(c) = "Fv"  -> Tag(Pay(c)[3]) = "v" /\ ViewOK(Pay(c)[3]) /\ VShp(Pay(c)[3]) = <<Len(Pay(c)[1]), Len(Pay(c)[2])>>
+      [] OTHER -> TRUE
+
+\* the key -> value pairs of a concrete dict in the order they were inserted
+InsKvs(c) == CASE Tag(c) = "mo" -> [i \in 1..Len(Pay(c)[2]) |-> Pay(c)[2][Pay(c)[1][i]]]
+               [] Tag(c) = "Mo" -> [i \in 1..Len(Pay(c)[3]) |-> Pay(c)[3][Pay(c)[2][i]]]
+               [] OTHER -> Kvs(c)
+\* two views share memory: one buffer, and some cell of it is addressed by both
+ViewCellSet(w) == {ViewPos(w)[q] : q \in 1..ProdSeq(VShp(w))}
+SharesCells(u, v) == VBuf(u) = VBuf(v) /\ ViewCellSet(u) \cap ViewCellSet(v) # {}
+\* ... one buffer, and the address ranges overlap (np.may_share_memory looks at the bounds only)
+ViewLo(w) == CHOOSE a \in ViewCellSet(w) : \A b \in ViewCellSet(w) : a <= b
+ViewHi(w) == CHOOSE a \in ViewCellSet(w) : \A b \in ViewCellSet(w) : a >= b
+MayShare(u, v) == VBuf(u) = VBuf(v) /\ ViewLo(u) <= ViewHi(v) /\ ViewLo(v) <= ViewHi(u)
+
+\* what the statement says about two realisations = what it says about their values
+EqC(u, v)        == EqSpec(Norm(u), Norm(v))
+PinC(u, v)       == Pin(Norm(u), Norm(v))
+SameValue(u, v)  == Norm(u) = Norm(v)
+AtC(u, v)        == At(Norm(u), Norm(v))
+\* structural copy at the level of realisations: also the same insertion orders, the same offsets and
+\* strides (whatever the buffer number: a copy lives in its own memory)
+RECURSIVE StripC(_)
+StripCSeq(s) == [i \in 1..Len(s) |-> StripC(s[i])]
+StripCKvs(s) == [i \in 1..Len(s) |-> <<s[i][1], StripC(s[i][2])>>]
+StripC(c) ==
+    CASE Tag(c) = "nan" -> VNaN(0)
+      [] Tag(c) = "np"  -> NpS(Pay(c)[1], StripC(Pay(c)[2]))
+      [] Tag(c) \in {"t", "l"} -> <<Tag(c), StripCSeq(Pay(c))>>
+      [] Tag(c) = "m"   -> VDict(StripCKvs(Pay(c)))
+      [] Tag(c) = "mo"  -> VDictO(Pay(c)[1], StripCKvs(Pay(c)[2]))
+      [] Tag(c) = "M"   -> VSub(Pay(c)[1], StripCKvs(Pay(c)[2]))
+      [] Tag(c) = "Mo"  -> VSubO(Pay(c)[1], Pay(c)[2], StripCKvs(Pay(c)[3]))
+      [] Tag(c) = "a"   -> VArr(Pay(c)[1], Pay(c)[2], StripCSeq(Pay(c)[3]))
+      [] Tag(c) = "S"   -> VSer(Pay(c)[1], Pay(c)[2], StripCSeq(Pay(c)[3]))
+      [] Tag(c) = "F"   -> VFrm(Pay(c)[1], Pay(c)[2], Pay(c)[3], StripCSeq(Pay(c)[4]))
+      [] Tag(c) = "v"   -> VView(VDt_(c), 0, StripCSeq(VBc(c)), VOff(c), VShp(c), VStr_(c))
+      [] Tag(c) = "Sv"  -> VSerV(Pay(c)[1], StripC(Pay(c)[2]))
+      [] Tag(c) = "Fv"  -> VFrmV(Pay(c)[1], Pay(c)[2], StripC(Pay(c)[3]))
+      [] OTHER -> c
+SameRealisation(u, v) == StripC(u) = StripC(v)
+\* the clause an answer True / False to eq(u, v) contradicts, for two realisations.  An answer False for
+\* two realisations of one value that are NOT realised the same way (another insertion order, other
+\* memory) is named apart - it is the same sentence of the statement, but another family of defects
+ClauseIfTC(u, v) == ClauseIfT(Norm(u), Norm(v))
+ClauseIfFC(u, v) == LET cl == ClauseIfF(Norm(u), Norm(v)) IN
+                    IF cl = "copy_unequal" /\ ~SameRealisation(u, v) THEN "other_realisation_unequal" ELSE cl
 
 \* ---------------------------------------------------------------------------------------------
 \* The axioms of the statement on an observed matrix  M[i][j] \in {"T", "F", other}, i, j \in 1..n,
